@@ -1,6 +1,6 @@
 #!/bin/bash
 # usage: seed_all.sh "<ID list>" "<all checks>"   -> appends to /tmp/mut/results.txt
-for id in $1; do for v in A B; do
+for id in $1; do for v in A B C D E F; do
   [ -f /tmp/mut/$id.out/$v/patch.diff ] || continue
   if [ -f /tmp/mut/$id.out/$v/CONFIRMED ]; then c=$(cat /tmp/mut/$id.out/$v/CONFIRMED); else
     if ls /tmp/mut/$id.out/$v/demo_*.py >/dev/null 2>&1; then c=$(/verif/tools/seed_confirm_py.sh $id $v | tail -2 | tr '\n' ' '); else c=$(/verif/tools/seed_confirm.sh $id $v | tail -2 | tr '\n' ' '); fi; echo "$c" | grep -q " CONFIRMED" && echo "$c" > /tmp/mut/$id.out/$v/CONFIRMED; fi
